@@ -12,9 +12,12 @@ from __future__ import annotations
 import base64
 import dataclasses
 import io
+import json
 import os
 import re
 import resource
+import subprocess
+import sys
 import tempfile
 import types
 import unicodedata
@@ -22,6 +25,8 @@ import zipfile
 from pathlib import PurePosixPath
 
 import corpus
+from props import c04_history as H
+from props import c04_legacy as LG
 from props import c04_oracle as O
 from run import Broken, Violation
 
@@ -31,7 +36,12 @@ RULE = ("tables: empty / rectangular / ragged / with empty rows, per table class
         "unicode, archive!/member, existing files / symlinks, over-long names, NUL; RTF escape texts: valid \\uN? / "
         "\\'hh token stream (surrogate-heavy) + malformed stream; UTF-16 unit lists; property XML trees; then every "
         "accessor of every object reachable from the results of all extractors over fixtures x path forms, "
-        "mutations, generated documents. distinct = distinct (component, input) pairs; non-trivial = non-empty input")
+        "mutations, generated documents; legacy .ppt / .xls hosts whose picture stream is a generated sequence of OfficeArt "
+        "BLIP records (every type / instance, DIB of every bit depth, refused headers, truncated, duplicate, secondary UID); "
+        "process histories (mkdir / write / rm / symlink / chdir interleaved with populate_from_path, extractor and read_file "
+        "calls: same relative path under two working directories, path appearing / disappearing, re-targeted symlink, "
+        "path-None-path, siblings, random walks), every call judged against the host as it is at that call. "
+        "distinct = distinct (component, input) pairs; non-trivial = non-empty input")
 ASSUMPTIONS = [
     "pathlib.PurePosixPath / os.path.exists / os.path.realpath are the stdlib's (modelled in S2T/Model/Iface.lean, tied here)",
     "CPython str/bytes codecs (utf-8 strict, utf-16-le replace/surrogatepass) — the model of utf-16 'replace' is tied here",
@@ -842,6 +852,186 @@ def _check_results(ctx, violations, broken):
             report(O.walk(r[1][0], "p/" + os.path.basename(name)), name, blob, "p/" + os.path.basename(name))
 
 
+# ----------------------------------------------------------------------------- G. pictures of legacy PPT / XLS streams
+def _blip_doc_findings(container, recs):
+    """the statement on the document built from `recs`: (status, [(key, what)], blob)"""
+    from sharepoint2text.parsing import router
+    build, name = LG.BUILDERS[container]
+    blob = build(recs)
+    if blob is None:
+        return "nofit", [], None
+    fn = router.get_extractor(name)
+    st, found = _extract_and_walk(fn, blob, "d/" + name)
+    return st, found, blob
+
+
+def _blip_violation(key, what, container, recs):
+    shape = ", ".join(f"{t:#06x}/{inst:#05x}:{len(d)}B" for t, inst, d in recs[:8])
+    return Violation(key, f"{container} host with BLIP records [{shape}]: {what}"[:400],
+                     {"kind": "blip", "container": container, "records": LG.to_json(recs)})
+
+
+def _check_blips(ctx, broken, violations):
+    """model of the BLIP loop vs. the PPT / XLS picture extractors on generated record sequences; the statement
+    (oracle) on every result"""
+    from sharepoint2text.parsing import router
+    rng = ctx.rng
+    seen_keys = {v.key for v in violations}
+    for container, (build, name) in LG.BUILDERS.items():
+        modelled = container in LG.MODELLED
+        if modelled:
+            seqs = [f(rng) for f in LG.FIXED_SEQUENCES]
+            for _ in range(ctx.n(10, 150)):
+                seqs.append(LG.gen_records(rng, rng.randint(1, 7), for_xls=(container == "xls")))
+            outs = ctx.drive([LG.model_request(sq) for sq in seqs])
+        else:   # DOC: raw DIB / PNG bytes in the WordDocument stream (scan heuristics: no model, the statement only)
+            seqs = [[(LG.DIB, 0x7A8, LG.dib(2, 2, 24))], [(LG.DIB, 0x7A8, LG.dib(3, 2, bpp)) for bpp in (1, 4, 8, 16, 24, 32)] + [(LG.PNG, 0x6E0, LG.png())]]
+            for _ in range(ctx.n(8, 120)):
+                seqs.append(LG.gen_doc_items(rng, rng.randint(1, 6)))
+            outs = [None] * len(seqs)
+        fn = router.get_extractor(name)
+        bad = 0
+        for recs, o in zip(seqs, outs):
+            blob = build(recs)
+            if blob is None:
+                ctx.count(f"blips/{container}/host-missing-or-no-fit")
+                continue
+            ctx.case(("blip", container, tuple(recs)), nontrivial=bool(recs))
+            with _MemLimit():
+                r = corpus.run_extractor(fn, blob, path="d/" + name, limit_s=LIMIT_S)
+            ctx.count(f"blips/{container}/records", len(recs))
+            if not modelled:
+                if r[0] == "ok" and r[1]:
+                    for im in r[1][0].iterate_images():
+                        ctx.count(f"blips/{container}/stored/{im.get_content_type()}")
+                model = impl = None
+            else:
+                model = [(m["index"], m["ct"], bytes(m["payload"]), m["size"]) for m in o.get("images", [])]
+                for _, ct, _, _ in model:
+                    ctx.count(f"blips/{container}/stored/{ct}")
+                ctx.count(f"blips/{container}/skipped-or-duplicate", len(recs) - len(model))
+                if r[0] != "ok" or not r[1]:
+                    impl = f"<{r[0]}>"
+                else:
+                    impl = LG.stored_images(r[1][0])
+                    if container == "xls":
+                        impl = impl[: len(model)] if len(impl) >= len(model) else impl   # the host's own later pictures follow
+            if impl != model:
+                bad += 1
+                if bad <= 2:
+                    def short(l):
+                        return l if isinstance(l, str) else [(a, b, len(c) if c is not None else None, d) for a, b, c, d in l]
+                    broken.append(Broken("correspondence", "c04.blips", f"{container}: impl={short(impl)} model={short(model)}"[:600],
+                                         case={"component": "blip", "container": container, "records": LG.to_json(recs)}))
+            if r[0] == "ok":
+                found = []
+                for res in r[1][:5]:
+                    found += O.walk(res, "d/" + name)
+                for key, what in found:
+                    if key not in seen_keys:
+                        seen_keys.add(key)
+                        violations.append(_blip_violation(key, what, container, recs))
+            elif r[0] == "other":
+                key = f"extract-raises:{fn.__name__}:blip"
+                if key not in seen_keys:
+                    seen_keys.add(key)
+                    violations.append(_blip_violation(key, f"extractor raised {r[1]} (not an ExtractionError)", container, recs))
+    ctx.sample({"component": "blip", "containers": sorted(LG.BUILDERS), "example": [[hex(t), hex(i), len(d)] for t, i, d in LG.FIXED_SEQUENCES[1](rng)]})
+
+
+# ----------------------------------------------------------------------------- H. process histories
+def _history_findings(ops):
+    steps = H.execute(ops)
+    out = []
+    for s_ in steps:
+        for k, w in s_["findings"]:
+            out.append((k, f"step {s_['i']} {s_['op']}({s_['spec']!r}): {w}"))
+    return steps, out
+
+
+def _confirm_history(ops):
+    """does the history fail when replayed alone in a fresh process? (a history of this run may have been helped by
+    what earlier cases left in the process — the replay file must stand on its own)"""
+    payload = {"property": "C04", "replay": {"kind": "history", "ops": ops}}
+    fd, tmp = tempfile.mkstemp(prefix="s2t_c04_confirm_", suffix=".json")
+    try:
+        with os.fdopen(fd, "w") as fh:
+            json.dump(payload, fh)
+        runpy = os.path.join(os.path.dirname(os.path.dirname(os.path.abspath(__file__))), "run.py")
+        p = subprocess.run([sys.executable, runpy, "C04", "--replay", tmp], capture_output=True, text=True, timeout=120,
+                           env=dict(os.environ, S2T_REPO=corpus.REPO))
+        return "REPLAY-FAILS" in p.stdout
+    except Exception:  # noqa: BLE001
+        return False
+    finally:
+        try:
+            os.unlink(tmp)
+        except OSError:
+            pass
+
+
+def _gen_histories(ctx):
+    rng = ctx.rng
+    out, k = [], 0
+    exts = ("txt", "html", "csv") if ctx.thorough else ("txt", "html")
+    for kind in H.CALLS:
+        for ext in exts:
+            k += 1
+            for label, ops in H.scenarios(f"h{ctx.seed}x{k}_", kind, ext):
+                out.append((f"{label}/{kind}/{ext}", ops))
+    for j in range(ctx.n(40, 1500)):
+        out.append(("random-walk", H.random_history(rng, f"r{ctx.seed}x{j}_", n_ops=rng.choice((8, 14, 24)))))
+    return out
+
+
+def _check_histories(ctx, broken, violations):
+    """(1) populate_from_path over histories against the model of a history (each call answered from the host's
+    answers AT THAT CALL); (2) the statement on every result of every call of the history"""
+    hist = _gen_histories(ctx)
+    reqs, metas, candidates = [], [], {}
+    for label, ops in hist:
+        steps, found = _history_findings(ops)
+        ctx.case(("history", json.dumps(ops)))
+        ctx.count("histories/" + label.split("/")[0])
+        for s_ in steps:
+            ctx.count(f"histories/calls/{s_['op']}/" + ("none" if s_["path"] is None else "on-host" if s_["host_file"] else "folder-on-host" if s_["host_folder"] else "not-on-host"))
+        calls = [s_ for s_ in steps if s_["op"] == "meta"]
+        if calls:
+            root = steps[0]["root"]
+            reqs.append({"op": "c04.pathseq", "calls": [{"path": c["path"], "host_file": c["host_file"], "host_folder": c["host_folder"]} for c in calls]})
+            metas.append((label, ops, calls, root))
+        for key, what in found:
+            candidates.setdefault("history:" + key, []).append((label, ops, what))
+    outs = ctx.drive(reqs)
+    bad = 0
+    for (label, ops, calls, root), o in zip(metas, outs):
+        res = o.get("results", [])
+        for c, m in zip(calls, res):
+            if c["fields"] != m:
+                bad += 1
+                if bad <= 3:
+                    broken.append(Broken("correspondence", "c04.pathseq",
+                                         f"history {label}, step {c['i']} populate_from_path({c['spec']!r}): impl={c['fields']} model={m}".replace(root, "$ROOT")[:600],
+                                         case={"component": "history", "ops": ops}))
+                break
+    known = {v.key for v in violations}
+    for key, cands in candidates.items():
+        if key in known:
+            continue
+        chosen = None
+        cands.sort(key=lambda c: ("/meta/" in c[0], c[0] == "random-walk"))   # prefer a fixed scenario through a real extractor
+        for label, ops, what in cands[:6]:
+            if _confirm_history(ops):
+                chosen = (label, ops, what, True)
+                break
+        if chosen is None:
+            label, ops, what = cands[0]
+            chosen = (label, ops, what + " [seen inside this run only: not reproduced by this history alone in a fresh process]", False)
+        label, ops, what, _ = chosen
+        violations.append(Violation(key, f"history {label} ({len(ops)} operations in one process): {what}"[:400], {"kind": "history", "label": label, "ops": ops}))
+    ctx.sample({"component": "history", "label": hist[0][0], "ops": hist[0][1]})
+
+
 # ----------------------------------------------------------------------------- entry points
 def correspondence(ctx):
     broken, violations = [], []
@@ -852,8 +1042,14 @@ def correspondence(ctx):
     _check_readers(ctx, broken)
     _check_results(ctx, violations, broken)
     _check_default_sites(ctx, violations)
+    _check_blips(ctx, broken, violations)
+    _check_histories(ctx, broken, violations)
     ctx.coverage["oracle_findings"] = len(violations)
+    _FOUND[:] = [v.key for v in violations]
     return {"broken": broken, "violations": violations}
+
+
+_FOUND: list = []   # keys of the concrete violations the correspondence's own oracles produced in this run
 
 
 def _direct_oracle(ctx, b):
@@ -882,6 +1078,14 @@ def _direct_oracle(ctx, b):
                           {"kind": "image", "cls": c["cls"], "payload_b64": c["payload_b64"]}) for k, what in w.out]
     if comp == "path":
         return _path_oracle(c.get("path"))
+    if comp == "blip":
+        recs = LG.from_json(c["records"])
+        st, found, _ = _blip_doc_findings(c["container"], recs)
+        return [_blip_violation(k, what, c["container"], recs) for k, what in found]
+    if comp == "history":
+        _, found = _history_findings(c["ops"])
+        return [Violation("history:" + k, f"history ({len(c['ops'])} operations in one process): {what}"[:400], {"kind": "history", "ops": c["ops"]})
+                for k, what in found[:1]]
     return []
 
 
@@ -895,6 +1099,8 @@ def _path_oracle(p):
 
 def search(ctx, broken):
     out = []
+    if _FOUND:   # the oracles run by `correspondence` already produced concrete failing inputs (run.py reports them)
+        return out
     _check_default_sites(ctx, out)
     if out:
         return out
@@ -917,6 +1123,12 @@ def search(ctx, broken):
         if out:
             return out
     violations = []
+    _check_blips(ctx, [], violations)
+    if violations:
+        return violations
+    _check_histories(ctx, [], violations)
+    if violations:
+        return violations
     _check_results(ctx, violations, [])
     return violations
 
@@ -974,6 +1186,16 @@ def replay(ctx, payload):
                 w.image(cname, im)
                 msgs += [x for _, x in w.out]
         return (not msgs), "; ".join(msgs) or "numbers reported by the default-built image are positive / None"
+    if kind == "blip":
+        recs = LG.from_json(rep["records"])
+        st, found, _ = _blip_doc_findings(rep["container"], recs)
+        if st == "nofit":
+            return False, "the host fixture is missing or the records do not fit into it"
+        msgs = [w for _, w in found] + (["extractor raised " + st[6:]] if st.startswith("other") else [])
+        return (not msgs), "; ".join(msgs)[:600] or f"every picture of the {rep['container']} document honours the interface ({st})"
+    if kind == "history":
+        _, found = _history_findings(rep["ops"])
+        return (not found), "; ".join(w for _, w in found)[:600] or "every call of the history reports metadata derived from its own path argument"
     if kind == "path":
         vs = _path_oracle(rep.get("path"))
         return (not vs), "; ".join(v.what for v in vs) or "metadata derived from the path as pathlib defines it"
